@@ -115,6 +115,11 @@ def history(rng: random.Random, universe, n_ops, swarm, model: Model | None = No
             matched = m.select(spec)
             txns = m.remove_specs(matched)
             last_removed = [x for t in txns for x in t]
+            if swarm.get('rerelease'):
+                for sp in last_removed:
+                    if sp in m.alt and rng.random() < 0.6:
+                        ops.append({'op': 'rerelease', 'spec': sp})
+                        m.rerelease(sp)
         elif r < 0.9 and ilis:
             f = rng.choice(ilis)
             ops.append({'op': 'add_ili', 'file': f['name'], 'route': rng.choice(ILI_ROUTES),
